@@ -252,18 +252,19 @@ def promotable_forms(bs, d):
     return forms
 
 
-def check_add(bs, acc, lcls, ld, rcls, rd, lpos=0, rpos=0):
-    """s + t and t.__radd__ route with both operands bitstrings."""
-    s = build(bs, lcls, ld, lpos)
-    t = build(bs, rcls, rd, rpos)
+def check_add(bs, acc, lcls, ld, rcls, rd, lpos=0, rpos=0, lview=None, rview=None):
+    """s + t and t.__radd__ route with both operands bitstrings.  lview / rview = (object, source text, route name): the operand is
+    built through a view route (window onto a file / buffer, derived object) instead of Cls(bin=...)."""
+    s = lview[0] if lview else build(bs, lcls, ld, lpos)
+    t = rview[0] if rview else build(bs, rcls, rd, rpos)
     exp = ('ok', (lcls, ld + rd, 0 if lcls in STREAMS else None))
     got = obs(lambda: s + t, cb)
     acc.step('add', 1, nontrivial=int(bool(ld + rd)), ok=1)
-    pre = [f"s = {mk(lcls, ld, lpos)}", f"t = {mk(rcls, rd, rpos)}"]
+    pre = ([RT.SNIPPET_PRELUDE] if (lview or rview) else []) + [f"s = {lview[1] if lview else mk(lcls, ld, lpos)}", f"t = {rview[1] if rview else mk(rcls, rd, rpos)}"]
     if got != exp:
         kind = 'class' if (got[0] == 'ok' and got[1][1] == exp[1][1]) else vkind(exp, got)
-        acc.violation('add', kind, dict(lcls=lcls, left=ld, rcls=rcls, right=rd, lpos=lpos, rpos=rpos,
-                                        group='longer-right' if len(rd) > len(ld) else 'other'),
+        acc.violation('add', kind, dict(lcls=lcls, left=ld, rcls=rcls, right=rd, lpos=lpos, rpos=rpos, lroute=lview[2] if lview else None, rroute=rview[2] if rview else None,
+                                        group=('longer-right' if len(rd) > len(ld) else 'other') + (f"|{lview[2] if lview else ''}|{rview[2] if rview else ''}" if (lview or rview) else '')),
                       snippet(pre, "s + t", exp, conv=CB_SRC), exp, got)
     # the result is a new sequence: mutating it must not reach an operand
     if lcls in ('BitArray', 'BitStream'):
@@ -318,6 +319,14 @@ def check_promo(bs, acc, cls, d, form, od, pos=0):
 
 
 def run_concat(bs, acc, shard):
+    ctx = RT.Ctx()
+    try:
+        _run_concat(bs, acc, shard, ctx)
+    finally:
+        ctx.close()
+
+
+def _run_concat(bs, acc, shard, ctx):
     small = list(families.all_bits(shard['n']))
     for ld in shard['left']:
         for rd in small:
@@ -330,6 +339,20 @@ def run_concat(bs, acc, shard):
                 check_add(bs, acc, 'BitStream', ld, 'ConstBitStream', rd, len(ld), len(rd) // 2)
                 check_add(bs, acc, 'ConstBitStream', ld, 'BitStream', rd, len(ld) // 2, len(rd))
             acc.outcome(('add', ld + '|' + rd))
+        # operands that are views of a longer source (length-limited file, offset window, BytesIO, derived objects), either side
+        if len(ld) <= 5:
+            for rd in ['', '1', '01', '0110', ld, ld + '1', '10110010', '1011001000000001']:
+                for ri, r in enumerate(VIEW_ROUTES):
+                    lcls, rcls = CLASSES[(len(ld) + ri) % 4], CLASSES[(len(rd) + ri + 1) % 4]
+                    lo = RT.build(bs, r, lcls, ld, ctx)
+                    ro = RT.build(bs, r, rcls, rd, ctx)
+                    if lo is not None:
+                        check_add(bs, acc, lcls, ld, rcls, rd, lview=(lo, RT.source(r, lcls, ld), r))
+                    if ro is not None:
+                        check_add(bs, acc, lcls, ld, rcls, rd, rview=(ro, RT.source(r, rcls, rd), r))
+                    if lo is not None and ro is not None:
+                        lo2 = RT.build(bs, r, lcls, ld, ctx)
+                        check_add(bs, acc, lcls, ld, rcls, rd, lview=(lo2, RT.source(r, lcls, ld), r), rview=(ro, RT.source(r, rcls, rd), r))
         # promotable right/left operands (contents chosen over all small values incl. whole bytes)
         for od in ['', '1', '0', '10', '0110', '00000000', '10110010', '1011001000000001']:
             for form in promotable_forms(bs, od):
